@@ -437,7 +437,7 @@ class Bus {
     }
     // 2. the host transmits its own telegram: the script waits; only the sync generator watches for silence
     if (hostOwnsBus) {
-      if (autoSyn && lastByteTime + nextAutoSynAfter <= horizon) emitSyn(std::max(lastByteTime + nextAutoSynAfter, g.now));
+      if (autoSyn && lastByteTime + nextAutoSynAfter <= horizon) emitSyn(std::max(lastByteTime + nextAutoSynAfter, g.now), false, horizon);
       return;
     }
     int n = 1;
@@ -472,8 +472,8 @@ class Bus {
       taken++;
       if (it.kind == Item::SYN) {
         script.pop_front();
-        emitSyn(t);
         pendingGap = false;
+        emitSyn(t, false, horizon);
         break;      // after a SYN the host may arbitrate: let it react before anything else is scheduled
       }
       size_t k = itemPos;
@@ -504,7 +504,8 @@ class Bus {
   bool enhArbPending = false;
   bool foreignLostArb = false;
 
-  void emitSyn(int64_t t, bool gapB = false) {
+  void emitSyn(int64_t t, bool gapB = false, int64_t horizon = INT64_MAX) {
+    size_t rx0 = g.rx.size();
     emit(t, 0xAA, 'Y', gapB);
     hostOwnsBus = false;
     tr = Track();
@@ -512,6 +513,30 @@ class Bus {
       // the adapter writes the address right after the SYN; resolved against a foreign master in pump()/settle
       enhArbPending = true;     // resolved in pump(): against a foreign master starting in this slot, or alone
     }
+    if (gluePct > 0 && !enhanced && rng && (int)rng->below(100) < gluePct) glueFollowing(rx0, horizon);
+  }
+  int gluePct = 0;              // plain device: chance (percent) that a SYN reaches the host in one read together with the first symbols of
+                                // the telegram another master starts right after it (serial/USB/network latency: the host cannot arbitrate)
+  long glued = 0;
+  void glueFollowing(size_t rx0, int64_t horizon) {
+    if (itemPos != 0 || pendingGap || hostArbPending) return;
+    // a scripted SYN that was due anyway is the one just seen
+    if (script.size() >= 2 && script[0].kind == Item::SYN && script[0].gap < 45 * MS && script[1].kind != Item::SYN && script[1].kind != Item::GAP) script.pop_front();
+    if (script.empty()) return;
+    Item& it = script.front();
+    if ((it.kind != Item::TELEGRAM && it.kind != Item::BYTES) || it.gap != 0 || it.bytes.size() < 2) return;
+    size_t k = 1 + rng->below(3);
+    if (k > it.bytes.size() - 1) k = it.bytes.size() - 1;
+    for (size_t j = 0; j < k && j < it.gaps.size(); j++) if (it.gaps[j] > 0) return;
+    if (lastByteTime + (int64_t)k * SYM > horizon) return;
+    for (size_t j = 0; j < k; j++) {
+      char org = it.kind == Item::TELEGRAM ? (j < it.origins.size() ? it.origins[j] : 'F') : 'N';
+      emit(lastByteTime + SYM, it.bytes[j], org);
+      itemPos++;
+    }
+    itemDue = 0; scriptNotBefore = 0;
+    for (size_t i = rx0; i < g.rx.size(); i++) g.rx[i].t = g.rx.back().t;
+    glued++;
   }
 
   /** nobody else arbitrated: the host's address echo stands as it is */
